@@ -292,3 +292,26 @@ Definition Vbasis_check (d : nat) : bool :=
   forallb (fun i => forallb (fun j =>
     close_to_sqrt (mget (nth d V []) i j) (pevalr (P j) (node d i)) (Z.of_nat (2 * j + 1) # 2) bound40)
     (seq 0 n)) (seq 0 n).
+
+(* ------------------------------------------------------------------ *)
+(* (f) scalars and the downdate coefficients
+   alpha_k = sqrt((k+1)^2 / ((2k+1)(2k+3))), gamma_0 = gamma_1 = 0,
+   gamma_k = sqrt(k^2 / (4k^2 - 1)) for k >= 2 *)
+
+Definition alpha_sq (k : nat) : Q := Z.of_nat ((k + 1) * (k + 1)) # Pos.of_nat ((2 * k + 1) * (2 * k + 3)).
+Definition gamma_sq (k : nat) : Q := if (k <? 2)%nat then 0 else Z.of_nat (k * k) # Pos.of_nat (4 * k * k - 1).
+
+Definition scalars_stmt : Prop :=
+  dy2Q eps == two_pow_neg 52 /\ dy2Q min_sep == (16 # 1) * dy2Q eps /\ ndiv_max = 20%Z /\
+  Qabs (dy2Q hint - (1 # 10)) < two_pow_neg 56 /\
+  length alpha = 33%nat /\ length gamma = 33%nat /\
+  forall k, (k < 33)%nat ->
+    close_to_sqrt (vget alpha k) 1 (alpha_sq k) bound40 = true /\
+    close_to_sqrt (vget gamma k) 1 (gamma_sq k) bound40 = true.
+
+Definition scalars_check : bool :=
+  Qeq_bool (dy2Q eps) (two_pow_neg 52) && Qeq_bool (dy2Q min_sep) ((16 # 1) * dy2Q eps) && Z.eqb ndiv_max 20 &&
+  Qltb (Qabs (dy2Q hint - (1 # 10))) (two_pow_neg 56) &&
+  Nat.eqb (length alpha) 33 && Nat.eqb (length gamma) 33 &&
+  forallb (fun k => close_to_sqrt (vget alpha k) 1 (alpha_sq k) bound40 &&
+                    close_to_sqrt (vget gamma k) 1 (gamma_sq k) bound40) (seq 0 33).
